@@ -2,7 +2,7 @@ import Ecal.Drivers.Util
 import Ecal.Model.Conc
 /-!
 Driver of C11. Payload (space separated `key=value`):
-  `w=<workers> h=<submitters> ev=<events> sinks=<n> ff=<0|1> body=<…> glob=<0|1> burst=<n> seed=<n>`
+  `w=<workers> h=<submitters> ev=<events> sinks=<n> ff=<0|1> body=<…> glob=<0|1> burst=<n> shadow=<0|1> nap=<0|1> seed=<n>`
 The model side instantiates `Ecal.Conc.sinkSys []` (the action closure as it is: no
 captured assignment) with min(ev, 48) overlapping invocations whose outcomes and whose
 interleaving (at most `w` invocations in flight) are derived from the seed, and counts
@@ -53,7 +53,12 @@ def runCase (payload : String) : String :=
     match outcome t with
     | some e => (ts.filter fun u => (fin.locals u).ret = some (some e)).length > 1
     | none => false).length
+  -- the scope model (`event` stored before the parent link); shadow=1: the declaring scope defines `event`
+  let g0 : String → Option Nat := fun x => if field fs "shadow" = 1 ∧ x = eventCell then some 4242 else none
+  let sfin := run (scopeSys false) ⟨g0, fun t => { event := t }⟩ sched
   let echo := (ts.filter fun t => (fin.locals t).echo ≠ some t).length
+    + (ts.filter fun t => (sfin.locals t).read1 ≠ some t ∨ (sfin.locals t).read2 ≠ some t).length
+    + (if sfin.shared eventCell = g0 eventCell then 0 else 1)
   s!"{lost} {dup} {mis} {echo}" ++ (if w ≥ 2 ∧ field fs "h" * (max 1 (field fs "burst")) ≥ 2 ∧ ev ≥ 100 then "\tnt=1" else "")
 
 def run (_args : List String) : IO Unit := lineLoop runCase
